@@ -190,6 +190,22 @@ def run(ck):
                     c["name"], o.get("msg")), {"case": c, "real": o})
             else:
                 ck.traces += 1
+    # graphs that mix module-map and file modules (file import enabled, import directory != working directory, decoys in the latter):
+    # map modules resolve files from the import directory, file modules from their own directory, and the working directory never counts
+    mixed = [("lib", "FROM-HELPER"), ("a", "FROM-LIB2"), ("e", "FROM-D"), ("nested/c", "FROM-D"), ("lib3", '["FROM-LIB2", "FROM-HELPER", "FROM-LIB2"]'),
+             ("helper", "FROM-HELPER"), ("d", "FROM-OUTER-D")]
+    mcases = [{"id": i, "main": m} for i, (m, _) in enumerate(mixed)]
+    mres = vlib.run_cases(ck, "mixedimport", mcases, nproc=2, env={"VERIF_SCRATCH_DIR": ck.scratch})
+    for c, (m, want) in zip(mcases, mixed):
+        o = mres[c["id"]]
+        ck.evaluations += 1
+        if o.get("error") and "result" not in o:
+            raise vlib.Infra("mixedimport driver: %s" % o["error"])
+        if o.get("result") != "ok" or o.get("out", "").strip('"') != want.strip('"'):
+            ck.violation("mixed-import:" + m, "main imports %r in a graph mixing module-map and file modules: expected %s, got %s %s" % (
+                m, want, o.get("result"), o.get("out") or o.get("msg")), {"case": c, "real": o})
+        else:
+            ck.traces += 1
     ck.extra["file_import_cases"] = len(fcases)
     ck.add_sample({"graph": graphs[len(graphs) // 2]["imports"], "result": graphs[len(graphs) // 2]["result"]})
     ck.rule = ("all import graphs over the module set with ordered import lists up to MaxImports (exhaustive); distinct = distinct graphs "
